@@ -1,5 +1,5 @@
 CONSTANTS
-  NValues = 14
+  NValues = 15
 INIT Init
 NEXT Next
 CONSTRAINT DumpCase
